@@ -53,5 +53,5 @@ func (ai ArrayItems) MarshalJSON() ([]byte, error) {
 	if length == 0 {
 		b.WriteString(`{}`)
 	}
-	return b.Bytes(), nil
+	return internal.CopyBytes(b.Bytes()), nil
 }
